@@ -5,7 +5,7 @@ from props import _mp4family as fam
 
 def gen(run):
     quick = run.tier == "quick"
-    yield from P.standard_stream(run, 300 if quick else 6000, 300 if quick else 8000, 3 if quick else 5,
+    yield from P.standard_stream(run, 300 if quick else 30000, 300 if quick else 40000, 3 if quick else 5,
                                  seq_sample=None if quick else None)
 
 
